@@ -523,6 +523,38 @@ def r8_iter_relations_unconditional(ctx, res):
     r3_order_and_switch(ctx, res)
 
 
+def r9_relation_names_exist(ctx, res):
+    """the convenience wrappers (hypernyms, hyponyms, holonyms, meronyms, ...) pass relation names that exist: every string
+    literal handed to get_related / relations / closure / relation_paths inside wn/_core.py and wn/taxonomy.py is a member of the
+    relation inventories of wn.constants (a lost comma concatenates two names into one that matches nothing)."""
+    from ..consts import const, Unknown
+    inv = set()
+    for nm in ('SYNSET_RELATIONS', 'SENSE_RELATIONS', 'SENSE_SYNSET_RELATIONS'):
+        v = const(ctx.repo, 'constants', nm)
+        if isinstance(v, Unknown) or not v:
+            raise AnalysisError(f'cannot fold wn.constants.{nm}')
+        inv |= set(v)
+    n = 0
+    for ms in ('_core', 'taxonomy', 'ic', 'similarity'):
+        m = ctx.repo.mod(ms)
+        for f in m.funcs.values():
+            for c in walk_no_nested(f.node):
+                if isinstance(c, ast.Call) and isinstance(c.func, ast.Attribute) \
+                        and c.func.attr in ('get_related', 'relations', 'closure', 'relation_paths', 'get_related_synsets'):
+                    lits = [a for a in c.args if isinstance(a, ast.Constant) and isinstance(a.value, str)]
+                    if not lits:
+                        continue
+                    n += 1
+                    key = f'relation-names:{f.key}:{c.func.attr}'
+                    bad = [a.value for a in lits if a.value not in inv and a.value != '*']
+                    res.inst(key, m.loc(c), f'{len(lits)} literal relation names')
+                    if bad:
+                        res.find(key, m.loc(c), f'{f.qualname} asks for relation type(s) {bad}, which are not in the relation inventories of '
+                                                f'wn.constants: the relations of the intended types are silently left out')
+    if n < 6:
+        raise AnalysisError(f'only {n} calls with literal relation names found')
+
+
 RULES = [
     ('C11-R1', r1_termination, 6),
     ('C11-R2', r2_sibling_relation_queries, 10),
@@ -532,4 +564,5 @@ RULES = [
     ('C11-R6', r6_visited_by_entity, 4),
     ('C11-R7', r7_targets_are_row_entities, 3),
     ('C11-R8', r8_iter_relations_unconditional, 1),
+    ('C11-R9', r9_relation_names_exist, 6),
 ]
